@@ -190,6 +190,22 @@ func c27Run(c c27Case) *eng.Fail {
 			if !k2.Equal(ir.Const(ir.Adjust(ir.ConstVal(k), nw), nw)) {
 				return &eng.Fail{Sig: "Equal mismatch", What: "Const.Equal false for equal constants", Case: c}
 			}
+			// chains: the result re-widthed again (narrowed bytes must not come back)
+			for nw2 := expr.Width(1); nw2 <= w+2; nw2++ {
+				var k3 expr.Const
+				p, stack := eng.Catch(func() { k3 = k2.WithWidth(nw2) })
+				if p != nil {
+					return &eng.Fail{Sig: "WithWidth panic " + eng.PanicSite(stack), What: fmt.Sprintf("%s.WithWidth(%d).WithWidth(%d) panics: %v", ir.Show(k), nw, nw2, p), Case: c}
+				}
+				e3 := make([]byte, nw2)
+				copy(e3, e2)
+				if k3.Width() != nw2 || fmt.Sprintf("%x", k3.Bytes()) != fmt.Sprintf("%x", e3) {
+					return &eng.Fail{Sig: "WithWidth chain bytes", What: fmt.Sprintf("%s.WithWidth(%d).WithWidth(%d) = %x, expected %x", ir.Show(k), nw, nw2, k3.Bytes(), e3), Case: c}
+				}
+				if fmt.Sprintf("%x", k2.Bytes()) != fmt.Sprintf("%x", e2) || fmt.Sprintf("%x", k.Bytes()) != fmt.Sprintf("%x", exp) {
+					return &eng.Fail{Sig: "WithWidth mutates-receiver", What: "a chained WithWidth changed an earlier constant", Case: c}
+				}
+			}
 		}
 	}
 	return nil
@@ -197,7 +213,7 @@ func c27Run(c c27Case) *eng.Fail {
 
 func init() {
 	checks["C27"] = eng.Check{
-		Rule: "NewConstUint/NewConstInt: ALL uint8,int8,uint16,int16 values x widths 1..4; uint32/int32/uint64/int64 boundary alphabets (every 2^k, 2^k-1, 2^k+1 and negatives) x widths 1..9, 15..17, 31..33, 39, 40, 63..65, 128, 200, 255; ConstFromUint/Int on the same values; ConstUint[uint8..uint64] on every constant of width 1..3 over bytes {00,01,7f,80,ff} and boundary constants of widths 4..9; NewConst with shorter/equal/longer source slices followed by mutation of the source, WithWidth to every width. Non-trivial = make case where the value is outside the range of at least one smaller width (i.e. not in -128..127).",
+		Rule: "NewConstUint/NewConstInt: ALL uint8,int8,uint16,int16 values x widths 1..4; uint32/int32/uint64/int64 boundary alphabets (every 2^k, 2^k-1, 2^k+1 and negatives) x widths 1..9, 15..17, 31..33, 39, 40, 63..65, 128, 200, 255; ConstFromUint/Int on the same values; ConstUint[uint8..uint64] on every constant of width 1..3 over bytes {00,01,7f,80,ff} and boundary constants of widths 4..9; NewConst with shorter/equal/longer source slices followed by mutation of the source, WithWidth to every width and every chain WithWidth(w1).WithWidth(w2). Non-trivial = make case where the value is outside the range of at least one smaller width (i.e. not in -128..127).",
 		Run: func(r *eng.Run) {
 			do := func(c c27Case) {
 				f := c27Run(c)
